@@ -1523,6 +1523,131 @@ def run_alloc(prog, res, floor=2, prop="C01", rule="C01.m", advisory_filter=None
                             "admit counts up to %d: the size wraps around 2^64 (%d + %d*%d), a small object is allocated and the "
                             "code that initialises `count` elements writes far past it" %
                             (fn.name, S[0], c1, K, S[0], c1, K), unit=fn.unit.display, advisory=adv))
+    # computed boxed lengths handed to the allocation wrappers: box(count * k) must not wrap the fixnum range
+    from rules.bufbudget import max_return
+    from cfg import local_defs
+    for fn in prog.all_funcs():
+        if not fn.blocks:
+            continue
+        cx = None
+        for i, nd in enumerate(fn.nodes):
+            if nd["k"] != "call" or nd.get("o") not in ALLOC_LEN:
+                continue
+            k = ALLOC_LEN[nd["o"]][0]
+            args = nd["c"][1:]
+            if k >= len(args):
+                continue
+            if cx is None:
+                cx = Ctx(fn)
+                cx.prog = prog
+            at = enclosing_elem(fn, i, cx.pos)
+            if at is None or at[0] not in cx.reach:
+                continue
+            inner = box_operand(fn, args[k], True)
+            e = None
+            if inner is not None and inner[1] == "f":
+                e = fn.strip(inner[0])
+                en = fn.nodes[e]
+                if en["k"] == "ref" and "d" in en and en["d"] not in fn.params:
+                    # a local that holds the computed size: look into its definition for the product
+                    r0 = cx.reaching(en["d"], at)
+                    if r0 is not None:
+                        for y in fn.subtree(r0[1]):
+                            if fn.nodes[y]["k"] == "bin" and fn.nodes[y]["o"] == "*":
+                                e = y
+                                en = fn.nodes[y]
+                                break
+                if en["k"] != "bin" or en["o"] != "*":
+                    continue
+                fa, fb = canon(cx, en["c"][0], at), canon(cx, en["c"][1], at)
+                other_node = None
+            else:
+                # sexp_fx_mul(a, b) = ((a - 1) * (b >> 1)) + 1 : arithmetic on the tagged words, i.e. box(unbox(a) * unbox(b))
+                t = fn.strip(args[k])
+                tn = fn.nodes[t]
+                if not (tn["k"] == "bin" and tn["o"] == "+" and fn.const_val(tn["c"][1]) == 1):
+                    continue
+                m = fn.strip(tn["c"][0])
+                mn = fn.nodes[m]
+                if not (mn["k"] == "bin" and mn["o"] == "*"):
+                    continue
+                x = fn.strip(mn["c"][0])
+                xn = fn.nodes[x]
+                if not (xn["k"] == "bin" and xn["o"] == "-" and fn.const_val(xn["c"][1]) == 1):
+                    continue
+                e = m
+                en = mn
+                fa = canon_boxed(cx, xn["c"][0], at, 0, "f")
+                y = fn.strip(mn["c"][1])
+                yn = fn.nodes[y]
+                if yn["k"] == "bin" and yn["o"] == ">>" and fn.const_val(yn["c"][1]) == 1:
+                    fb = canon_boxed(cx, yn["c"][0], at, 0, "f")
+                    bo = box_operand(fn, yn["c"][0])
+                    other_node = bo if bo is not None else y
+                else:
+                    fb = canon(cx, y, at)
+                    other_node = y
+            us = [f for f in (fa, fb) if len(f[1]) == 1 and list(f[1])[0][:3] in ("Uf(", "Uc(") and f[0] == 0]
+            if len(us) != 1:
+                continue
+            u = list(us[0][1])[0]
+            other = en["c"][1] if us[0] is fa else en["c"][0]
+            if other_node is not None and us[0] is fa:
+                other = other_node
+            stat.sites += 1
+            stat.obligations += 1
+            # largest value of the other factor
+            ov = fn.const_val(other)
+            if ov is None:
+                # an element of a constant table: its largest initializer
+                o1 = fn.strip(other)
+                if fn.nodes[o1]["k"] == "idx":
+                    base = fn.strip(fn.nodes[o1]["c"][0])
+                    if fn.nodes[base]["k"] == "ref" and fn.nodes[base].get("dk") == "g":
+                        for g in fn.unit.globals:
+                            if g.name == fn.nodes[base].get("o") and g.const and g.init_root is not None:
+                                vals = [g.const_val(x) for x in g.subtree(g.init_root) if g.nodes[x]["k"] in ("int", "const")]
+                                vals = [v for v in vals if v is not None]
+                                if vals:
+                                    ov = max(vals)
+            if ov is None:
+                o0 = fn.strip(other)
+                if fn.nodes[o0]["k"] == "ref" and "d" in fn.nodes[o0]:
+                    best = None
+                    for (_d, rhs) in local_defs(fn, fn.nodes[o0]["d"]):
+                        rr = fn.strip(rhs) if rhs is not None else None
+                        if rr is not None and fn.nodes[rr]["k"] == "call" and fn.nodes[rr].get("o"):
+                            m = max_return(prog, fn, fn.nodes[rr]["o"])
+                            best = None if m is None else (m if best is None else max(best, m))
+                            if m is None:
+                                break
+                        elif rr is not None and fn.const_val(rr) is not None:
+                            best = fn.const_val(rr) if best is None else max(best, fn.const_val(rr))
+                        else:
+                            best = None
+                            break
+                    ov = best
+            K = FIXNUM_MAX
+            for (E, strict, _uns) in guard_facts(cx, at):
+                if set(E[1]) == {u} and E[1][u] == -1:
+                    K = min(K, E[0] - 1 if strict else E[0])
+            disc = "%s(%s)" % (nd["o"], fn.txt(e)[:50])
+            if ov is not None and ov > 0 and K * ov <= FIXNUM_MAX:
+                stat.discharged += 1
+                stat.sample({"site": fn.where(i), "function": fn.name, "length": "count * %d" % ov, "count <=": K})
+                continue
+            key = (fn.file, fn.name)
+            adv = False
+            if advisory_filter is not None and key in prim_of:
+                adv = bool(advisory_filter(fn, prim_of[key][0], prim_of[key][1]))
+            elif advisory_filter is not None:
+                adv = fn.unit.name not in CORE_UNITS
+            res.add(Finding(prop, rule + ".length-may-wrap", fn.name, disc, fn.where(i),
+                            "%s hands %s the boxed product %s as a length: the count is program-supplied (up to %d here), the "
+                            "other factor up to %s, and the product is boxed unchecked, so it can wrap to a small length - a "
+                            "small object is allocated and the loop that fills `count` elements overruns it" %
+                            (fn.name, nd["o"], fn.txt(e)[:60], K, ov if ov is not None else "an unknown value"),
+                            unit=fn.unit.display, advisory=adv))
     return stat
 
 
